@@ -406,7 +406,7 @@ func parent(ck *Check, tier string, seed int64) {
 			defer wg.Done()
 			out := filepath.Join(tmp, fmt.Sprintf("shard%d.json", i))
 			cmd := exec.Command(self, ck.ID, "--tier", tier, "--shard", fmt.Sprintf("%d/%d", i, n), "--out", out)
-			cmd.Env = append(os.Environ(), "GOMAXPROCS=2", "GORACE=halt_on_error=1 exitcode=66")
+			cmd.Env = append(os.Environ(), "GOMAXPROCS=1", "GOGC=800", "GORACE=halt_on_error=1 exitcode=66")
 			logf := filepath.Join(tmp, fmt.Sprintf("shard%d.log", i))
 			lf, _ := os.Create(logf)
 			cmd.Stdout = lf
